@@ -9,6 +9,7 @@ import (
 	"bytes"
 	"encoding/hex"
 	"encoding/json"
+	"errors"
 	"fmt"
 	"math/big"
 	"runtime"
@@ -40,11 +41,17 @@ func (h *HB) UnmarshalJSON(b []byte) error {
 
 // ---------------------------------------------------------------- accounts
 
+// Account mirrors a node's user account object.  What LoadAccount (and the node, for the accounts it passes to a
+// built-in function) hands out is a DETACHED COPY of the persisted account: changes reach the ledger only through
+// SaveAccount - by the node, after a successful execution, for the two accounts it passed; by the library for every
+// account it loaded itself.  An account that never stored a key has no data trie, and reading a key that the object
+// itself has not written then fails (elrond-go's ErrNilTrie) - which is why every read in the library is fail-soft.
 type Account struct {
 	sh       *Shard
 	mu       sync.Mutex
 	Addr     []byte
 	Storage  map[string][]byte
+	HasTrie  bool // a data trie exists (some key was persisted at some time)
 	Balance  *big.Int
 	Owner    []byte
 	UserName []byte
@@ -58,7 +65,7 @@ func newAccount(sh *Shard, addr []byte) *Account {
 
 func (a *Account) clone(sh *Shard) *Account {
 	c := &Account{sh: sh, Addr: cp(a.Addr), Storage: make(map[string][]byte, len(a.Storage)), Balance: new(big.Int).Set(a.Balance),
-		Owner: cp(a.Owner), UserName: cp(a.UserName), Reward: new(big.Int).Set(a.Reward), CodeMeta: cp(a.CodeMeta)}
+		Owner: cp(a.Owner), UserName: cp(a.UserName), Reward: new(big.Int).Set(a.Reward), CodeMeta: cp(a.CodeMeta), HasTrie: a.HasTrie || len(a.Storage) > 0}
 	for k, v := range a.Storage {
 		c.Storage[k] = cp(v)
 	}
@@ -156,10 +163,15 @@ func (a *Account) RetrieveValue(key []byte) ([]byte, error) {
 	defer a.mu.Unlock()
 	v, ok := a.Storage[string(key)]
 	if !ok {
+		if !a.HasTrie && len(a.Storage) == 0 {
+			return nil, errNilTrie
+		}
 		return nil, nil
 	}
 	return cp(v), nil
 }
+
+var errNilTrie = errors.New("nil trie (the account never stored anything)")
 
 func (a *Account) SaveKeyValue(key []byte, value []byte) error {
 	if err := a.sh.dep("trie-write"); err != nil {
@@ -197,6 +209,7 @@ type ShardConfig struct {
 	NShards          uint32                       `json:"n_shards"`
 	Self             uint32                       `json:"self"`
 	Gas              map[string]map[string]uint64 `json:"gas"`
+	GasBeforeCreate  map[string]map[string]uint64 `json:"gas_before_create,omitempty"`
 	DNS              []HB                         `json:"dns"`
 	EnableNameChange bool                         `json:"enable_name_change"`
 	ActivationEpoch  uint32                       `json:"activation_epoch"`
@@ -357,21 +370,65 @@ func (s *Shard) LoadAccount(addr []byte) (vmcommon.AccountHandler, error) {
 	if err := s.dep(kind); err != nil {
 		return nil, err
 	}
-	return s.get(addr), nil
+	return s.load(addr), nil
+}
+
+// load hands out a detached copy of the persisted account (a blank one when nothing is persisted under the address).
+func (s *Shard) load(addr []byte) *Account {
+	s.mu.Lock()
+	defer s.mu.Unlock()
+	if a, ok := s.Accounts[string(addr)]; ok {
+		a.mu.Lock()
+		defer a.mu.Unlock()
+		return a.clone(s)
+	}
+	return newAccount(s, addr)
+}
+
+// store persists the state of an account object (what SaveAccount does).
+func (s *Shard) store(a *Account) {
+	a.mu.Lock()
+	c := a.clone(s)
+	a.HasTrie = c.HasTrie
+	a.mu.Unlock()
+	s.mu.Lock()
+	s.Accounts[string(c.Addr)] = c
+	s.mu.Unlock()
+}
+
+// nodeSave is the node's part after a successful execution: it saves the accounts it passed to the function.  The one
+// exception is a recipient that is literally the canonical system-account address (no real transaction has it - the
+// metachain addresses each shard's copy with the shard id in the last byte): the library loads and saves that account
+// itself, and writing the node's untouched copy over it would be an artefact of this harness.
+func (s *Shard) nodeSave(c *Call, snd, dst vmcommon.UserAccountHandler) {
+	if a, ok := snd.(*Account); ok && a != nil {
+		s.store(a)
+	}
+	if a, ok := dst.(*Account); ok && a != nil && dst != snd && !bytes.Equal(c.Rcv, refSystemAccount) {
+		s.store(a)
+	}
 }
 func (s *Shard) GetExistingAccount(addr []byte) (vmcommon.AccountHandler, error) {
 	return s.LoadAccount(addr)
 }
-func (s *Shard) SaveAccount(vmcommon.AccountHandler) error { return s.dep("save-account") }
-func (s *Shard) RemoveAccount([]byte) error                { return nil }
-func (s *Shard) Commit() ([]byte, error)                   { return nil, nil }
-func (s *Shard) JournalLen() int                           { return 0 }
-func (s *Shard) RevertToSnapshot(int) error                { return nil }
-func (s *Shard) GetNumCheckpoints() uint32                 { return 0 }
-func (s *Shard) GetCode([]byte) []byte                     { return nil }
-func (s *Shard) RootHash() ([]byte, error)                 { return nil, nil }
-func (s *Shard) RecreateTrie([]byte) error                 { return nil }
-func (s *Shard) IsInterfaceNil() bool                      { return s == nil }
+func (s *Shard) SaveAccount(h vmcommon.AccountHandler) error {
+	if err := s.dep("save-account"); err != nil {
+		return err
+	}
+	if a, ok := h.(*Account); ok && a != nil {
+		s.store(a)
+	}
+	return nil
+}
+func (s *Shard) RemoveAccount([]byte) error { return nil }
+func (s *Shard) Commit() ([]byte, error)    { return nil, nil }
+func (s *Shard) JournalLen() int            { return 0 }
+func (s *Shard) RevertToSnapshot(int) error { return nil }
+func (s *Shard) GetNumCheckpoints() uint32  { return 0 }
+func (s *Shard) GetCode([]byte) []byte      { return nil }
+func (s *Shard) RootHash() ([]byte, error)  { return nil, nil }
+func (s *Shard) RecreateTrie([]byte) error  { return nil }
+func (s *Shard) IsInterfaceNil() bool       { return s == nil }
 
 func copyGas(g map[string]map[string]uint64) map[string]map[string]uint64 {
 	out := map[string]map[string]uint64{}
@@ -398,6 +455,12 @@ func NewShard(cfg ShardConfig) (*Shard, error) {
 	})
 	if err != nil {
 		return nil, err
+	}
+	if cfg.GasBeforeCreate != nil {
+		f.GasScheduleChange(copyGas(cfg.GasBeforeCreate))
+		if GasValid(cfg.GasBeforeCreate) {
+			s.accepted = copyGas(cfg.GasBeforeCreate)
+		}
 	}
 	c, err := f.CreateBuiltInFunctionContainer()
 	if err != nil {
@@ -454,6 +517,7 @@ func (s *Shard) CloneFresh() *Shard {
 	if s.accepted != nil {
 		cfg.Gas = copyGas(s.accepted)
 	}
+	cfg.GasBeforeCreate = nil // already part of "the schedule now in force"
 	c, err := NewShard(cfg)
 	if err != nil {
 		panic(err)
@@ -681,10 +745,14 @@ func (l *laidOutInput) intact(c *Call) string {
 // accountsFor applies N1: the caller's / recipient's account iff it lives on the executing shard.
 func (s *Shard) accountsFor(c *Call) (snd, dst vmcommon.UserAccountHandler) {
 	if computeShard(c.Caller, s.Cfg.NShards) == s.Cfg.Self {
-		snd = s.get(c.Caller)
+		snd = s.load(c.Caller)
 	}
 	if computeShard(c.Rcv, s.Cfg.NShards) == s.Cfg.Self || refIsSystemAccount(c.Rcv) {
-		dst = s.get(c.Rcv)
+		if snd != nil && bytes.Equal(c.Caller, c.Rcv) {
+			dst = snd // one account, one object
+		} else {
+			dst = s.load(c.Rcv)
+		}
 	}
 	return
 }
@@ -738,6 +806,7 @@ func (w *World) Exec(c *Call) *Result {
 		s.restore(snap) // N2
 		return res
 	}
+	s.nodeSave(c, snd, dst)
 	res.Diff = diffSnap(snap, s)
 	return res
 }
